@@ -1,7 +1,246 @@
-(* C12 -- skeleton *)
-From Coq Require Import List ZArith.
-From Molli Require Import Model.Join Proofs.Join.
-Theorem C12_charge (q : option Z) (qA qB : Z) :
-  join_charge q qA qB = match q with Some v => v | None => (qA + qB)%Z end.
-Proof. exact (join_charge_spec q qA qB). Qed.
-Print Assumptions C12_charge.
+(* C12 -- Joining fragments at attachment points builds exactly the intended molecule.
+   Property theorems only (each is `exact <lemma>` from Proofs/Join.v).  They are about the SAME Gallina
+   definitions (Model/Join.v on top of C11's Model/Rot.v, parametric in the field operations) that the
+   correspondence shards execute over Q against Structure.join and molli.scripts.combine._ml_assemble.
+
+   Reading guide.  `join o A B s1 s2 op w = Some P` : the call returns P (None = it raises).  Atoms carry names
+   (a_id); the product atom that is the copy of source atom u is again called u; `rows f` pairs each atom name with
+   its coordinate row.  a1 / a2 are the attachment atoms, a1r / a2r their (unique) neighbours, r1 / p1 / r2 / p2 the
+   rows of a1r / a1 / a2r / a2, v1 = p1 - r1 and v2 = p2 - r2 the attachment vectors, d = bond_len op the length
+   asked for.  w holds what is not an argument of join in the property's sense: |v1|, |v2|, the unit vector ov
+   orthogonal to v1 used when v2 and -v1 are opposite, and the rotamer rotation (sin, cos) about the new bond.
+
+   What is NOT proved here (label: partial):
+   - IEEE rounding: implementation and exact model are compared within 1e-8 only;
+   - WHICH rotamer the scan picks (argmin of a float32 steric loss): the theorems hold for EVERY rotation about
+     the new bond, the choice is not modelled;
+   - "A and B are left untouched" and "the product is made of new objects": a functional model cannot express
+     mutation; this is judged on every generated case by the Python oracle (deep snapshots incl. object identities
+     and parents) -- statement kept here:
+       C12_sources_untouched : after join(A, B, ..) every observable of A and B (atoms, parents, bonds, rows,
+       charge, multiplicity) is what it was before, and no atom / bond object of the product belongs to A or B;
+   - A and B are assumed to be two different molecules with unique atom names (NoDup (ids A ++ ids B)); join(A, A, ..)
+     is outside the theorems;
+   - a requested length of exactly 0 counts as "not requested" (Python truthiness), see C12_requested_length;
+   - known finding C12:mult:zero-becomes-one (Promolecule.__init__ stores `mult or 1`): C12_charge_mult carries the
+     exclusion as a hypothesis, C12_mult_zero_known characterises the excluded region exactly. *)
+From Coq Require Import Reals Lra List ZArith QArith Lia Sorted.
+From Molli Require Import Common.Field3 Common.Field3R Model.Rot Proofs.Rot Proofs.RotMotion Model.Join Proofs.Join.
+Import ListNotations.
+
+(* ---- exactly the atoms and bonds the property lists -------------------------------------------------- *)
+(* For any field of coordinates.  Atoms: the records of A then of B (element, isotope, label, type, stereo,
+   geometry, formal charge/spin, attrib all inside the record), minus the two attachment atoms, names still unique.
+   Bonds: those of A and B that do not touch an attachment atom (exactly one was removed on each side), plus one new
+   bond between the former neighbours, which is the ONLY bond between them; every bond joins atoms of the product;
+   one coordinate row per atom. *)
+Theorem C12_atoms_bonds {F : Type} (o : Fops F) (A B : frag F) (s1 s2 : asel) (op : jopts F) (w : jwit F) (P : frag F) :
+  join o A B s1 s2 op w = Some P ->
+  NoDup (ids (fr_atoms A) ++ ids (fr_atoms B)) -> wf_bonds A -> wf_bonds B ->
+  exists a1 a2 a1r a2r,
+    get_atom (fr_atoms A) s1 = Some a1 /\ get_atom (fr_atoms B) s2 = Some a2 /\
+    first_neighbour (fr_bonds A) a1 = Some a1r /\ first_neighbour (fr_bonds B) a2 = Some a2r /\
+    (fr_atoms P = filter (id_not a1) (fr_atoms A) ++ filter (id_not a2) (fr_atoms B) /\
+     (forall a, In a (fr_atoms P) <-> (In a (fr_atoms A) \/ In a (fr_atoms B)) /\ a_id a <> a1 /\ a_id a <> a2) /\
+     S (S (length (fr_atoms P))) = (length (fr_atoms A) + length (fr_atoms B))%nat /\
+     NoDup (ids (fr_atoms P))) /\
+    (fr_bonds P = filter (fun b => negb (incident a1 b)) (fr_bonds A) ++ filter (fun b => negb (incident a2 b)) (fr_bonds B)
+                  ++ [mkBond a1r a2r (o_nb op)] /\
+     (forall b, In b (fr_bonds P) <->
+        ((In b (fr_bonds A) \/ In b (fr_bonds B)) /\ incident a1 b = false /\ incident a2 b = false) \/ b = mkBond a1r a2r (o_nb op)) /\
+     S (length (fr_bonds P)) = (length (fr_bonds A) + length (fr_bonds B))%nat /\
+     length (filter (same_ends a1r a2r) (fr_bonds P)) = 1%nat /\
+     (forall b, In b (fr_bonds A) -> incident a1 b = true -> other_end a1 b = a1r) /\
+     (forall b, In b (fr_bonds B) -> incident a2 b = true -> other_end a2 b = a2r)) /\
+    (forall b, In b (fr_bonds P) -> In (b_a1 b) (ids (fr_atoms P)) /\ In (b_a2 b) (ids (fr_atoms P))) /\
+    length (fr_coords P) = length (fr_atoms P).
+Proof. exact (join_atoms_bonds o A B s1 s2 op w P). Qed.
+Print Assumptions C12_atoms_bonds.
+
+Local Open Scope R_scope.
+
+(* ---- each fragment is moved rigidly, never mirrored; the new bond ----------------------------------- *)
+(* There are maps gA, gB of space that keep every distance and every signed volume (rigid_map, Proofs/RotMotion.v:
+   built from C11's proper-rotation theorems) such that every atom of A other than a1 sits at gA(its old row) and
+   every atom of B other than a2 at gB(its old row).  A's former neighbour is at the origin, B's at (d/|v1|) v1:
+   the new bond vector has length |d| and the direction of A's former attachment vector.  B's former attachment
+   vector ends up pointing the opposite way (B faces A).  All of it for EVERY valid ov and with or without ANY
+   rotamer rotation about the new bond (w_twist): neither appears in the bond vector. *)
+Theorem C12_rigid_each_and_new_bond (A B : frag R) (s1 s2 : asel) (op : jopts R) (w : jwit R) (P : frag R) :
+  join ROps A B s1 s2 op w = Some P ->
+  NoDup (ids (fr_atoms A) ++ ids (fr_atoms B)) ->
+  exists a1 a2 a1r a2r r1 p1 r2 p2,
+    resolved A B s1 s2 a1 a2 a1r a2r r1 p1 r2 p2 /\
+    let v1 := vsub ROps p1 r1 in let v2 := vsub ROps p2 r2 in let d := bond_len ROps op in
+    (geom_ok v1 v2 w ->
+     exists gA gB : vecR -> vecR,
+       rigid_map gA /\ rigid_map gB /\
+       rows P = map (fun q => (fst q, gA (snd q))) (filter (key_not a1) (rows A))
+             ++ map (fun q => (fst q, gB (snd q))) (filter (key_not a2) (rows B)) /\
+       In (a1r, vzero ROps) (rows P) /\
+       In (a2r, vscale ROps (d / w_n1 w) v1) (rows P) /\
+       norm2 ROps (vsub ROps (vscale ROps (d / w_n1 w) v1) (vzero ROps)) = d * d /\
+       vsub ROps (gB p2) (gB r2) = vscale ROps (- (w_n2 w / w_n1 w)) v1).
+Proof. exact (join_rigid A B s1 s2 op w P). Qed.
+Print Assumptions C12_rigid_each_and_new_bond.
+
+(* what `rigid_map` gives on the rows: any four atoms of one fragment are found in the product with the same
+   mutual distance and the same signed volume (handedness) *)
+Theorem C12_fragment_shape (g : vecR -> vecR) (ap : positive) (LX LP pre post : list (positive * vecR)) :
+  rigid_map g -> LP = pre ++ map (fun q => (fst q, g (snd q))) (filter (key_not ap) LX) ++ post ->
+  forall u0 u1 u2 u3 x0 x1 x2 x3,
+    In (u0, x0) LX -> In (u1, x1) LX -> In (u2, x2) LX -> In (u3, x3) LX ->
+    u0 <> ap -> u1 <> ap -> u2 <> ap -> u3 <> ap ->
+    exists y0 y1 y2 y3,
+      In (u0, y0) LP /\ In (u1, y1) LP /\ In (u2, y2) LP /\ In (u3, y3) LP /\
+      dist2 ROps y0 y1 = dist2 ROps x0 x1 /\
+      signed_volume ROps y0 y1 y2 y3 = signed_volume ROps x0 x1 x2 x3.
+Proof. exact (moved_fragment_shape g ap LX LP pre post). Qed.
+Print Assumptions C12_fragment_shape.
+
+(* the maps themselves, independently of any structure: join's rotation is proper and takes v2/|v2| to -v1/|v1| *)
+Theorem C12_join_rotation (v1 v2 ov : vecR) (n1 n2 : R) :
+  0 < n1 -> n1 * n1 = norm2 ROps v1 -> 0 < n2 -> n2 * n2 = norm2 ROps v2 -> unit ov -> dot ROps ov v1 = 0 ->
+  proper (join_rot ROps v1 n1 v2 n2 ov) /\
+  vm ROps (vdiv ROps v2 n2) (join_rot ROps v1 n1 v2 n2 ov) = vdiv ROps (vopp ROps v1) n1.
+Proof. exact (join_rot_correct v1 v2 ov n1 n2). Qed.
+Print Assumptions C12_join_rotation.
+
+(* the length asked for: dist when given (and not 0), else the sum of the two covalent radii *)
+Theorem C12_requested_length (op : jopts R) :
+  (forall d, o_dist op = Some d -> d <> 0 -> bond_len ROps op = d) /\
+  (o_dist op = None -> expected_length ROps (o_rcov1 op) (o_rcov2 op) (o_rcovC op) <> 0 ->
+   bond_len ROps op = expected_length ROps (o_rcov1 op) (o_rcov2 op) (o_rcovC op)) /\
+  (forall ra rb, ra <> 0 -> rb <> 0 -> expected_length ROps (Some ra) (Some rb) (o_rcovC op) = ra + rb).
+Proof.
+  exact (conj (bond_len_requested op) (conj (bond_len_default op) (fun ra rb => expected_length_radii ra rb (o_rcovC op)))).
+Qed.
+Print Assumptions C12_requested_length.
+
+(* ---- charge and multiplicity ----------------------------------------------------------------------- *)
+(* qA + qB and mA + mB - 1 unless overridden -- an override of 0 charge included (finding 24, repaired).
+   Hypothesis: the resulting multiplicity is not 0 (known finding C12:mult:zero-becomes-one). *)
+Theorem C12_charge_mult {F : Type} (o : Fops F) (A B : frag F) (s1 s2 : asel) (op : jopts F) (w : jwit F) (P : frag F) :
+  join o A B s1 s2 op w = Some P ->
+  fr_charge P = match o_charge op with Some q => q | None => (fr_charge A + fr_charge B)%Z end /\
+  (override (o_mult op) (fr_mult A + fr_mult B - 1) <> 0%Z ->
+   fr_mult P = match o_mult op with Some m => m | None => (fr_mult A + fr_mult B - 1)%Z end) /\
+  (override (o_mult op) (fr_mult A + fr_mult B - 1) = 0%Z -> fr_mult P = 1%Z).
+Proof. exact (join_charge_mult o A B s1 s2 op w P). Qed.
+Print Assumptions C12_charge_mult.
+
+(* the excluded region, exactly: a combined (or overriding) multiplicity of 0 is reported as 1 *)
+Theorem C12_mult_zero_known (m : option Z) (mA mB : Z) :
+  override m (mA + mB - 1) = 0%Z -> join_mult m mA mB = 1%Z.
+Proof. exact (join_mult_zero m mA mB). Qed.
+
+(* finding 24 as it was: `charge or (qA + qB)` drops an override of 0; the repaired expression keeps it *)
+Theorem C12_charge_override_or_refuted (dflt : Z) :
+  override_or (Some 0%Z) dflt = dflt /\ override (Some 0%Z) dflt = 0%Z.
+Proof. exact (override_or_drops_zero dflt). Qed.
+Print Assumptions C12_charge_override_or_refuted.
+
+(* ---- the result does not depend on hidden state ---------------------------------------------------- *)
+(* (a) outside the antiparallel branch the rotation does not look at ov *)
+Theorem C12_general_branch_ignores_ov (v1 v2 ov ov' : vecR) (n1 n2 : R) :
+  Rleb (dot ROps (vdiv ROps v2 n2) (vdiv ROps (vopp ROps v1) n1)) (- (1) + join_tol ROps) = false ->
+  join_rot ROps v1 n1 v2 n2 ov = join_rot ROps v1 n1 v2 n2 ov'.
+Proof. exact (join_rot_general_ignores_ov v1 v2 ov ov' n1 n2). Qed.
+(* (b) inside it the choice matters: two valid choices give different rotations, so with ov drawn from np.random
+       (the code before the repair, finding 23) the product was not a function of join's arguments *)
+Theorem C12_no_hidden_state_refuted_before_repair :
+  let a : vecR := (1, 0, 0) in let b : vecR := (-1, 0, 0) in let ov : vecR := (0, 1, 0) in let ov' : vecR := (0, 0, 1) in
+  unit a /\ unit b /\ unit ov /\ unit ov' /\ dot ROps ov b = 0 /\ dot ROps ov' b = 0 /\
+  antiparallel ROps a b ov <> antiparallel ROps a b ov'.
+Proof. exact antiparallel_depends_on_ov. Qed.
+(* (c) the repaired choice det_ov is a function of v1 (and of the square roots n1, nort) and satisfies every
+       hypothesis the theorems above put on ov: with it the model has no free choice left besides the rotamer angle *)
+Theorem C12_no_hidden_state (v1 v2 : vecR) (n1 n2 nort : R) (tw : option (R * R)) :
+  0 < n1 -> n1 * n1 = norm2 ROps v1 -> 0 < n2 -> n2 * n2 = norm2 ROps v2 ->
+  0 < nort -> nort * nort = norm2 ROps (det_ort ROps (vdiv ROps (vopp ROps v1) n1)) -> twist_ok tw ->
+  geom_ok v1 v2 (mkWit n1 n2 (det_ov ROps v1 n1 nort) tw).
+Proof. exact (geom_ok_det v1 v2 n1 n2 nort tw). Qed.
+Print Assumptions C12_no_hidden_state.
+(* the square root nort exists: |det_ort b|^2 >= 2/3 for every unit b *)
+Theorem C12_det_ort_nonzero (b : vecR) : unit b ->
+  dot ROps (det_ort ROps b) b = 0 /\ 2 / 3 <= norm2 ROps (det_ort ROps b).
+Proof. exact (det_ort_spec b). Qed.
+Print Assumptions C12_det_ort_nonzero.
+
+(* ---- iterated joins of `molli combine` -------------------------------------------------------------- *)
+(* The loop of _ml_assemble (as repaired: index ap_i minus the number of already consumed attachment points that
+   preceded ap_i) addresses at every step the atom that was at position ap_i of the ORIGINAL core, for ANY order of
+   core_aps: it equals the loop that names the attachment points directly.  Any field, any substituents that do not
+   share their attachment atom's name with the core. *)
+Theorem C12_iterated {F : Type} (o : Fops F) (nb : list Z) (rC : F) (core : frag F) (aps : list Z) (subs : list (cstep (F:=F))) :
+  NoDup (ids (fr_atoms core)) ->
+  NoDup aps ->
+  (forall ap, In ap aps -> (0 <= ap < Z.of_nat (length (fr_atoms core)))%Z) ->
+  (forall st a2, In st subs -> first_ap (fr_atoms (fst (fst st))) = Some a2 -> ~ In a2 (ids (fr_atoms core))) ->
+  assemble o nb rC core [] aps subs = assemble_named o nb rC core (map (name_at core) aps) subs.
+Proof. intros ND. exact (assemble_addresses o nb rC core ND aps subs). Qed.
+Print Assumptions C12_iterated.
+
+(* The loop before the repair (`ap_i - i`) is right exactly under the extra hypothesis that core_aps is ascending
+   (C12_ex_iterated below shows it failing on a descending list). *)
+Theorem C12_iterated_before_repair {F : Type} (o : Fops F) (nb : list Z) (rC : F) (core : frag F) (aps : list Z) (subs : list (cstep (F:=F))) :
+  NoDup (ids (fr_atoms core)) ->
+  StronglySorted Z.lt aps ->
+  (forall ap, In ap aps -> (0 <= ap < Z.of_nat (length (fr_atoms core)))%Z) ->
+  (forall st a2, In st subs -> first_ap (fr_atoms (fst (fst st))) = Some a2 -> ~ In a2 (ids (fr_atoms core))) ->
+  assemble_minus_i o nb rC core 0 aps subs = assemble_named o nb rC core (map (name_at core) aps) subs.
+Proof. intros ND. exact (assemble_minus_i_addresses o nb rC core ND aps subs). Qed.
+Print Assumptions C12_iterated_before_repair.
+
+(* ==== the hypotheses are satisfiable by non-trivial data; the model runs ================================= *)
+Local Open Scope Q_scope.
+Definition exA : frag Q := mkFrag [mkAtom 1 false [6%Z]; mkAtom 2 true [0%Z]; mkAtom 3 false [1%Z]; mkAtom 4 true [0%Z]]
+                                 [mkBond 1 2 [1%Z]; mkBond 3 1 [1%Z]; mkBond 1 4 [1%Z]]
+                                 [(0, 0, 0); (2, 0, 0); (0, 1, 0); (0, 0, 3)] 0 1.
+Definition exB : frag Q := mkFrag [mkAtom 11 true [0%Z]; mkAtom 12 false [7%Z]; mkAtom 13 false [1%Z]]
+                                 [mkBond 12 11 [1%Z]; mkBond 12 13 [2%Z]]
+                                 [(5, 5, 8); (5, 5, 5); (6, 5, 5)] 1 2.
+Definition exOp : jopts Q := mkOpts (Some 2) (Some 0%Z) None [1%Z; 0%Z] (Some (3 # 4)) (Some (71 # 100)) (3 # 4).
+(* v1 = (2,0,0), v2 = (0,0,3): general branch; the product has atoms 1,3,4,12,13, the new bond 1-12 of length 2 *)
+Example C12_ex_join :
+  NoDup (ids (fr_atoms exA) ++ ids (fr_atoms exB)) /\
+  match join QOps exA exB (ByIdx 1) (ById 11) exOp (mkWit 2 3 (0, 1, 0) None) with
+  | Some P => ids (fr_atoms P) = [1; 3; 4; 12; 13]%positive /\
+              fr_bonds P = [mkBond 3 1 [1%Z]; mkBond 1 4 [1%Z]; mkBond 12 13 [2%Z]; mkBond 1 12 [1%Z; 0%Z]] /\
+              fr_charge P = 0%Z /\ fr_mult P = 2%Z /\
+              nth 3 (fr_coords P) (vzero QOps) = (2, 0, 0)
+  | None => False
+  end.
+Proof.
+  split.
+  - repeat constructor; simpl; intuition discriminate.
+  - vm_compute. repeat split; reflexivity.
+Qed.
+
+(* iterated join on the two-attachment core exA (attachment atoms at positions 1 and 3): both orders satisfy the
+   hypotheses of C12_iterated and run; the loop before the repair, given the DESCENDING order, addresses position
+   1 - 1 = 0, which is not an attachment point (the call raises), while naming the atoms directly works *)
+Definition exS (k : positive) : cstep (F:=Q) :=
+  (mkFrag [mkAtom k true [0%Z]; mkAtom (k + 1) false [8%Z]] [mkBond k (k + 1) [1%Z]] [(1, 1, 1); (1, 1, 2)] 0%Z 1%Z,
+   (Some (3 # 4), Some (63 # 100)), mkWit 2 1 (0, 1, 0) (Some (0, 1))).
+Example C12_ex_iterated :
+  NoDup (ids (fr_atoms exA)) /\ NoDup [3%Z; 1%Z] /\ StronglySorted Z.lt [1%Z; 3%Z] /\
+  (exists P, assemble QOps [1%Z] (3 # 4) exA [] [1%Z; 3%Z] [exS 21; exS 31] = Some P) /\
+  (exists P, assemble QOps [1%Z] (3 # 4) exA [] [3%Z; 1%Z] [exS 21; exS 31] = Some P /\
+             assemble_named QOps [1%Z] (3 # 4) exA [4; 2]%positive [exS 21; exS 31] = Some P) /\
+  assemble_minus_i QOps [1%Z] (3 # 4) exA 0 [3%Z; 1%Z] [exS 21; exS 31] = None.
+Proof.
+  split; [repeat constructor; simpl; intuition discriminate|].
+  split; [repeat constructor; simpl; intuition discriminate|].
+  split; [repeat constructor|].
+  split; [eexists; vm_compute; reflexivity|].
+  split; [eexists; split; vm_compute; reflexivity|].
+  vm_compute; reflexivity.
+Qed.
+
+Local Open Scope R_scope.
+(* the geometric hypotheses: attachment vectors (2,0,0) and (0,3,4), ov = (0,1,0), a rotamer rotation (3/5, 4/5) *)
+Example C12_ex_geom_ok :
+  geom_ok (2, 0, 0) (0, 3, 4) (mkWit 2 5 (0, 1, 0) (Some (3/5, 4/5))) /\
+  geom_ok (2, 0, 0) (0, 3, 4) (mkWit 2 5 (0, 1, 0) None).
+Proof. unfold geom_ok, unit, twist_ok. simpl. f3. repeat split; lra. Qed.
